@@ -211,6 +211,7 @@ def assemble_unit(unit_name, unit_dir, cfg, extracted, prelude_files, canary=Fal
     canary_n = [0]
     A.add("// GENERATED by /verif/vx/assemble.py — do not edit. Unit " + unit_name, {"k": "gen"})
     A.add("#![allow(unused_imports, unused_variables, unused_mut, dead_code, unused_assignments, unused_parens, unused_braces, non_snake_case)]", {"k": "gen"})
+    A.add("#![feature(allocator_api)]", {"k": "gen"})
     A.add("use vstd::prelude::*;", {"k": "gen"})
     A.add("verus! {", {"k": "gen"})
     for pf in prelude_files:
@@ -250,8 +251,17 @@ def assemble_unit(unit_name, unit_dir, cfg, extracted, prelude_files, canary=Fal
         def repl_ret(m_start):
             pass
         # find every fn in this item: "fn NAME" ... "vx_fn_head!(NAME);"
-        for m in list(re.finditer(r'vx_fn_head!\((\w+)\);', joined)):
+        done_fns = set()
+        while True:
+            m = None
+            for m_ in re.finditer(r'vx_fn_head!\((\w+)\);', joined):
+                if m_.group(1) not in done_fns:
+                    m = m_
+                    break
+            if m is None:
+                break
             fname = m.group(1)
+            done_fns.add(fname)
             fsec = find("fn", fname)
             head = joined[: m.start()]
             k = head.rfind("vx_ret!(")
@@ -288,7 +298,7 @@ def assemble_unit(unit_name, unit_dir, cfg, extracted, prelude_files, canary=Fal
                 fsec = find("fn", cur_fn)
                 fn_first_line = j
                 # walk back to the line containing `fn NAME`
-                while fn_first_line > 0 and not re.search(r'\bfn\s+' + re.escape(cur_fn.split("__")[-1]) + r'\b', out[fn_first_line][0]):
+                while fn_first_line > 0 and not re.search(r'\bfn\s+\w+', out[fn_first_line][0]):
                     fn_first_line -= 1
                 fn_start = fn_first_line
                 if fsec is not None:
@@ -344,6 +354,14 @@ def assemble_unit(unit_name, unit_dir, cfg, extracted, prelude_files, canary=Fal
                 if canary:
                     canary_n[0] += 1
                     out.append((indent + f"assert(!vx_canary({canary_n[0]})); // CANARY {f_}:{kind}:{k}", {"k": "canary", "fn": f_, "id": f"{f_}:{kind}:{k}"}))
+                idx += 1
+                continue
+            if stripped == "vx_contract_only!();":
+                # insert #[verifier::external_body] before the fn header of cur_fn
+                fs = fn_start
+                ind2 = out[fs][0][: len(out[fs][0]) - len(out[fs][0].lstrip())]
+                out.insert(fs, (ind2 + "#[verifier::external_body]", {"k": "gen"}))
+                A.functions[cur_fn]["contract_only"] = True
                 idx += 1
                 continue
             m = re.match(r'^vx_closure_head!\((\w+), (\d+)\);$', stripped)
